@@ -279,6 +279,18 @@ func c19CloneHeader(h *BlockHeader) *BlockHeader {
 	return c
 }
 
+// the fields of a header / tx body as plain values (nil and empty byte strings are the same field value)
+func c19HeaderFields(h *BlockHeader) []string {
+	return []string{hex.EncodeToString(h.ChainID), hex.EncodeToString(h.PrevBlockHash), fmt.Sprint(h.BlockNo, h.Timestamp, h.Confirms), hex.EncodeToString(h.BlocksRootHash),
+		hex.EncodeToString(h.TxsRootHash), hex.EncodeToString(h.ReceiptsRootHash), hex.EncodeToString(h.PubKey), hex.EncodeToString(h.CoinbaseAccount),
+		hex.EncodeToString(h.Sign), hex.EncodeToString(h.Consensus)}
+}
+
+func c19TxFields(b *TxBody) []string {
+	return []string{fmt.Sprint(b.Nonce, b.GasLimit, b.Type), hex.EncodeToString(b.Account), hex.EncodeToString(b.Recipient), hex.EncodeToString(b.Amount),
+		hex.EncodeToString(b.Payload), hex.EncodeToString(b.GasPrice), hex.EncodeToString(b.ChainIdHash), hex.EncodeToString(b.Sign)}
+}
+
 func c19HeaderDigests(h *BlockHeader) map[string]string {
 	b := &Block{Header: h}
 	id := b.calculateBlockHash()
@@ -652,7 +664,13 @@ func c19RunMutations(in *c19Input, res *verifkit.Result, diverge map[string]int)
 				for _, st := range c19Styles(v0, 0) {
 					mh := c19CloneHeader(base)
 					c19Mutate(reflect.ValueOf(mh).Elem().FieldByName(m.Field), st, 0, rng)
+					keep := c19CloneHeader(mh)
 					md := c19HeaderDigests(mh)
+					c19SigValid(mh)
+					if !reflect.DeepEqual(c19HeaderFields(mh), c19HeaderFields(keep)) {
+						c19Violate(res, map[string]interface{}{"kind": "input-modified", "function": "header digests"}, map[string]interface{}{"before": keep, "after": mh},
+							"computing the block hash / signing digest / verifying the signature changed the header")
+					}
 					c19Judge(res, diverge, m, st, bd, md, map[string]interface{}{"base": base, "mutant": mh})
 					if signed && m.Field != "Sign" && c19SigValid(mh) {
 						c19Violate(res, map[string]interface{}{"kind": "signature-survives-mutation", "object": "header", "field": m.Field},
@@ -667,7 +685,12 @@ func c19RunMutations(in *c19Input, res *verifkit.Result, diverge map[string]int)
 				for _, st := range c19Styles(v0, 0) {
 					mb := c19CloneTxBody(base)
 					c19Mutate(reflect.ValueOf(mb).Elem().FieldByName(m.Field), st, 0, rng)
+					keepTx := c19CloneTxBody(mb)
 					md := map[string]string{"txHash": hex.EncodeToString((&Tx{Body: mb}).CalculateTxHash())}
+					if !reflect.DeepEqual(c19TxFields(mb), c19TxFields(keepTx)) {
+						c19Violate(res, map[string]interface{}{"kind": "input-modified", "function": "CalculateTxHash"}, map[string]interface{}{"before": keepTx, "after": mb},
+							"computing the transaction hash changed the transaction body")
+					}
 					c19Judge(res, diverge, m, st, bd, md, map[string]interface{}{"base": base, "mutant": mb})
 				}
 			case "receipt":
@@ -770,7 +793,12 @@ func c19ReceiptCase(res *verifkit.Result, diverge map[string]int, m c19Mutation,
 		}
 	}
 	for _, x := range vs {
+		keepR := fmt.Sprint(c19DumpReceipt(x.r))
 		md := c19ReceiptDigests(x.r, v2, others)
+		if fmt.Sprint(c19DumpReceipt(x.r)) != keepR {
+			c19Violate(res, map[string]interface{}{"kind": "input-modified", "function": "receipt digests"}, map[string]interface{}{"case": m, "style": x.style, "before": keepR},
+				"computing the merkle leaf / receipts root changed the receipt")
+		}
 		c19Judge(res, diverge, m, x.style, bd, md, map[string]interface{}{"base": c19DumpReceipt(base), "mutant": c19DumpReceipt(x.r)})
 		// what the commitment covers must survive storage: write and read the mutant.  The events of a receipt carry the
 		// receipt's own transaction hash (the node fills both from the same transaction; the readers restore it).
@@ -784,7 +812,12 @@ func c19ReceiptCase(res *verifkit.Result, diverge map[string]int, m c19Mutation,
 			e.TxHash = sr.TxHash
 		}
 		rs := c19Receipts([]*Receipt{others[0], sr}, v2, m.Shape.Bloom, rng)
+		keepS := fmt.Sprint(c19DumpReceipt(sr))
 		back, problem := c19StoreLoad(rs, v2)
+		if fmt.Sprint(c19DumpReceipt(sr)) != keepS {
+			c19Violate(res, map[string]interface{}{"kind": "input-modified", "function": "receipts store codec"}, map[string]interface{}{"case": m, "style": x.style, "before": keepS},
+				"writing / reading the receipts container changed the receipt that was written")
+		}
 		diff := problem
 		if back != nil {
 			diff = c19ContainerDiff(rs, back, v2)
@@ -1110,7 +1143,16 @@ func c19RunCids(in *c19Input, res *verifkit.Result, diverge map[string]int) {
 			}
 			// the version prefix is replaceable without touching the rest
 			for _, v := range versions {
+				before := append([]byte(nil), b...)
 				nb := MakeChainId(b, v)
+				if !bytes.Equal(b, before) { // the argument is the parent block's own header field in every caller
+					c19Violate(res, map[string]interface{}{"kind": "input-modified", "function": "MakeChainId"},
+						map[string]interface{}{"chainid": id, "version": v, "argument_before": hex.EncodeToString(before), "argument_after": hex.EncodeToString(b)},
+						"MakeChainId(%s, %d) changed the bytes it was given (version prefix %d -> %d): a parent block's header would no longer hash to its id",
+						id.ToJSON(), v, DecodeChainIdVersion(before), DecodeChainIdVersion(b))
+					nb = append([]byte(nil), nb...) // keep the result, give the argument its bytes back
+					copy(b, before)
+				}
 				if DecodeChainIdVersion(nb) != v || !ChainIdEqualWithoutVersion(nb, b) || len(nb) != len(b) {
 					c19Violate(res, map[string]interface{}{"kind": "makechainid", "class": "prefix"}, map[string]interface{}{"chainid": id, "version": v},
 						"MakeChainId(%s, %d) does not yield the same id with version %d", id.ToJSON(), v, v)
